@@ -140,7 +140,9 @@ def stable_lints(repo):
         keep = ('PATH', 'HOME', 'CARGO_HOME', 'RUSTUP_HOME', 'TMPDIR', 'LANG', 'USER', 'TERM')
         env = {k: v for k, v in os.environ.items() if k in keep}
         env['CARGO_NET_OFFLINE'] = 'true'
+        # `forbid` so that an `#[allow(unstable_name_collisions)]` in the crate cannot silence the lint (it becomes E0453)
         p = subprocess.run(['cargo', 'check', '--offline', '--lib', '--message-format=json',
+                            '--config', 'build.rustflags=["-Funstable-name-collisions"]',
                             '--config', 'build.target-dir=%s' % json.dumps(os.path.join(tmp, 'tgt'))],
                            cwd=repo, env=env, capture_output=True, text=True)
         hits = []
@@ -153,9 +155,10 @@ def stable_lints(repo):
                 continue
             msg = m.get('message') or {}
             code = (msg.get('code') or {}).get('code')
-            if code in ('unstable_name_collisions',):
+            text = msg.get('message', '')
+            if code in ('unstable_name_collisions',) or (code == 'E0453' and 'unstable_name_collisions' in text):
                 sp = (msg.get('spans') or [{}])[0]
-                hits.append('%s at %s:%s: %s' % (code, sp.get('file_name'), sp.get('line_start'), msg.get('message', '')[:160]))
+                hits.append('%s at %s:%s: %s' % ('unstable_name_collisions', sp.get('file_name'), sp.get('line_start'), text[:160]))
         return hits, p.returncode
     finally:
         shutil.rmtree(tmp, ignore_errors=True)
